@@ -9,7 +9,8 @@ CONSTANTS
   Depth = 4
   CodeIds = {}
   Blocks = FALSE
-  Ops = {"setbalance", "setvalue", "deletevalue", "initcontract", "touch", "setblock", "deploy", "accept", "snapshot", "reset", "clearcache", "flush", "reload"}
+  MaxDep = 0
+  Ops = {"setbalance", "setvalue", "deletevalue", "initcontract", "touch", "setblock", "deploy", "accept", "snapshot", "reset", "clearcache", "flush", "reload", "adddeposit", "withdraw", "withdrawall", "paysteps"}
   SnapSlots = {1}
   HistOn = TRUE
 INVARIANT Emit
